@@ -10,7 +10,7 @@
 """
 import json, os, random
 from vlib import sut, tlc, tours, tracecheck, runner
-from checks import decmatrix
+from checks import decmatrix, c09_config
 
 SPEC = os.path.join(sut.VERIF, "specs", "api")
 CMN = "41.00,-5.29,-0.12,5.09,2.48,-4.07,-1.37,-1.78,-5.08,-2.05,-6.45,-1.42,1.17"
@@ -90,9 +90,16 @@ def run(ctx):
     drv = decmatrix.build_driver()
     data = os.path.join(sut.REPO, "tests", "data")
     cfg = {"hmm": os.path.join(sut.REPO, "model", "en-us"), "dict": os.path.join(data, "turtle.dic"), "loglevel": "FATAL"}
+    cfg_drv = sut.build_harness("cfg_drv", ["config/cfg_drv.c"], sut.build_lib("asan")[0])
+    if ctx.replay and open(ctx.replay).readline().startswith("#config"):
+        c09_config.replay(ctx, cfg_drv, ctx.replay)
+        return
     if ctx.replay:
         cases = [("replay", [l for l in open(ctx.replay).read().split("\n") if l])]
     else:
+        # stage "config": config_* histories against ConfigStore/ConfigImpl/ConfigTrace
+        ncfg = c09_config.run_stage(ctx, cfg_drv)
+        rep.notes["config_histories"] = ncfg
         edges = model(ctx)
         cases = []
         for rep_i in range(1 if quick else 6):
@@ -140,7 +147,8 @@ def run(ctx):
     rep.rule = ("executions = tours taking every (abstract state, call) edge of ApiImpl's graph (16 states x 39 calls incl. "
                 "out-of-order calls, bad grammars/words, abandoned iterators, retained lattice/decoder), one process each under "
                 "ASan+LSan with assertions on, each ending in a fixed probe utterance; non-trivial = execution in which >= 2 "
-                "calls returned an object")
+                "calls returned an object; plus config_* histories (every edge of ConfigImpl's graph and seeded random histories on "
+                "the harness's and the standard parameter table), one process each under ASan+LSan, checked by ConfigTrace")
     rep.assumptions += ["grammar loading, word addition and re-initialisation are only issued between utterances (the protocol "
                         "the property describes)", "leaks are judged by LeakSanitizer at process exit after the driver freed "
                         "every decoder it created"]
